@@ -9,6 +9,7 @@ parse(m), for generated expressions, generated modules, the repo's own .sam file
 mutants of them, at several line widths."""
 import json, os, re, glob, shutil, subprocess
 from . import common
+from . import listfamily
 from .common import hexs
 
 OPS = ["*", "/", "%", "+", "-", "::", "<", "<=", ">", ">=", "==", "!=", "&&", "||"]
@@ -816,8 +817,10 @@ class Runner:
         a = run1(src)
         parts = a.split(":")
         if a.startswith("rerr:"):
+            msg = common.unhex(parts[1]).decode("utf-8", "replace")
+            first = next((x.strip() for x in msg.splitlines() if x.strip() and not x.startswith("Error -")), msg[:80])
             return {"kind": "output has syntax errors", "source": src,
-                    "detail": common.unhex(parts[1]).decode("utf-8", "replace"), "printed": common.unhex(parts[2]).decode("utf-8", "replace")}
+                    "detail": f"`{src[:120]}` -> {first}", "printed": common.unhex(parts[2]).decode("utf-8", "replace"), "errors": msg}
         if a.startswith("diff:"):
             t0, t1 = common.unhex(parts[1]).decode(), common.unhex(parts[2]).decode()
             k = next((i for i in range(min(len(t0), len(t1))) if t0[i] != t1[i]), 0)
@@ -979,6 +982,7 @@ def run(ctx):
         r.module_batch(items[i:i + 500], f"modules seed={ctx.seed}")
     # 4a. boundary sizes and parser path independence
     size_stats = size_boundary_leg(ctx, r, model_ok)
+    list_stats = list_family_leg(ctx, r, model_ok)
     # 4b. the command-line formatter on a scratch project
     cli_stats = cli_leg(ctx, r, rng.fork())
     # 5. one dedicated probe per open finding
@@ -1016,7 +1020,7 @@ def run(ctx):
                                    "format_preserves_meaning / eval_regroup (every expression, every interpretation: same value/trap and event order)",
                                    "roundtrip_str (every lexed string literal)", "roundtrip_pattern (every pattern)", "paren_insensitive", "parseFuel_stable",
                                    "roundtrip_expr_in_context", "former_witnesses_roundtrip", "member_name_before_lt"],
-        "composed_with_C09": composed, "cli_leg": cli_stats, "size_boundary_leg": size_stats,
+        "composed_with_C09": composed, "cli_leg": cli_stats, "size_boundary_leg": size_stats, "list_family_leg": list_stats,
         "legacy": "Model/Fmt.lean (round-2 fragment with opaque call arguments / if / match; theorems roundtrip_expr_partial, paren_insensitive used by C09b / C13b) is executed next to the full model on every line in its fragment (stats legacy_model_*)",
         "pending": ["still opaque: identifiers/literals, member names with their explicit type arguments, the type annotation of a `let`, lambda parameter lists; patterns are modelled separately (Model/FmtPat.lean, roundtrip_pattern) and enter the expression model as one unit",
                     "`else if` chains, if-let guards, declarations, types, comments (reparse oracle only)",
@@ -1027,6 +1031,52 @@ def run(ctx):
         "hand-written models Model/FmtFull.lean (printer arms literal/id, tuple, block with let / expression statements and optional final expression, FieldAccess/MethodAccess/Call chains with argument lists, Unary, Binary incl. ends_with_member_name, IfElse with block branches, Match with cases, Lambda; parser parse_expression/parse_match/parse_if_else, parse_disjunction..parse_factor, parse_unary_expression, parse_function_call_or_field_access incl. the `<`-after-member-name rule and argument lists, parse_base_expression with nested-expression unwrapping, tuples, blocks and lambdas, parse_block / parse_statement), Model/FmtPat.lean (matching_pattern_to_document vs pattern_parser), Model/FmtEval.lean (evaluation semantics) and Model/Fmt.lean (tables; lex_str_lit_opt, unescape_quotes, process_raw_token)",
         "driver-side character lexer and token grouping of the fragment (Driver/C08.lean lexWords/group: member names with optional `<T>`, match patterns `U(v) ->`, `U ->`, `_ ->`, lambda parameter lists as single units) and the tree dump of harness/src/bin/c08.rs (erases locations, comments, resolved module references, field/tag orders; imports normalised by merge+sort)",
         "not modelled (reparse oracle only): declarations, types, else-if chains, if-let, comments"])
+
+
+KEYWORDS = ["import", "from", "class", "interface", "val", "function", "method", "as", "private", "protected",
+            "internal", "public", "if", "then", "else", "match", "return", "int", "string", "bool", "unit", "self",
+            "const", "let", "var", "type", "constructor", "destructor", "extends", "implements", "exports", "assert"]
+
+
+def coverage_family():
+    """deterministic inputs for the parser productions / lexer arms / printer arms that the random
+    streams do not reach (found with vlib/coverage.py): (E, S, M) texts."""
+    E = ["(a,)", "(a, b,)", "(a + 1, b,)", "(1, b,)", "f(a,)", "f(a, b,)", "((a), b,)", "(a, b, 1,)", "(a, b, c.d,)", "(a, 1)", "(a, b, 1)",
+         "(a, b, c + 1)", "(a, b, c, )",
+         "{ ; a; ; b }", "{ ; }", "{ a;; }", "{ ;; let v = 1;; v }",
+         "(a: int) -> a", "(a, b: int) -> a", "(a, b, c: Foo, d) -> a", "(a: int, b) -> b", "(a, b) -> a", "(a) -> a", "() -> 1",
+         "(a: bool, b: unit, c: int) -> (a, b, c)", "((a: int) -> a)(1)", "f((a, b: int) -> a + b)",
+         "2147483647", "2147483648", "-2147483648", "99999999999999999999999", "-99999999999999999999999", "- 2147483648", "1 - 2147483648", "99999999999", "a + 2147483648", "0", "007", "10", "-0",
+         "3000000000 - 1", "-(2147483648)", "f(2147483648)", "f(-2147483648)",
+         "a.", "a.1", "a.(b)", "{ a", "{ a b }", "( a", "a +", "match a { }", "match a { A -> }", "if a { b }", "if a { b } else", "let", "f(a,,b)", "(,)", "()",
+         "a b", "a[0]", "a ? b", "...", "a -> b", "{ let = 1; }", "{ let v 1; }", "{ let v = 1 v }", "(a, b", "(a, b: int)", "(a: int, 1) -> a",
+         "a..b", "!", "-", "a &&", "a == == b", "f(", "f(a", "{", "}", ")", ",", ";", "_", "_ + 1", "Abc.def", "Abc.Def", "this.a", "true.b", "1.a"]
+    E += [f"{kw} + 1" for kw in KEYWORDS] + [f"a.{kw}" for kw in ("val", "type", "match")] + [f"(x) -> {kw}" for kw in ("self", "return", "int")]
+    S = ['"\\q"', '"\\"', '"abc', '"a\nb"', '"\\\\"', '"\\t\\v\\0\\b\\f\\n\\r\\""', '"\\x41"', '"\\u1234"', '"\\\\\\"',
+         '"tab\there"', '"q\\"', "\"\"", '"a" "b"', '"\\\\q"', '"\\ "']
+    M = [
+        "private class A { private function f(): int = 1 private method g(): int = 2 function h(): int = 3 method i(): int = 4 }",
+        "private interface I { method m(): int }\ninterface J<T> : I { function f(x: T): T method <R> g(r: R): (T, R) -> unit }",
+        "interface I {}\nclass B<T: I>(val a: T, private val b: int) : I, J<T> { method m(): int = this.b }",
+        "class O<T>(None, Some(T), Pair(T, int)) { function <T> none(): O<T> = O.None<T>() method <R> map(f: (T) -> R): O<R> = match this { None -> O.None<R>(), Some(v) -> O.Some(f(v)), Pair(a, _) -> O.Some(f(a)) } }",
+        "class A<T> { function <R> f(g: (T) -> R, h: ((T, R) -> T, int) -> unit, x: T, l: List<Pair<T, R>>): R = g(x) }",
+        "class A { function f(x: Opt<int>, y: int): int = if let Some(v) = x { v } else if y > 0 { y } else if let (a, _) = (y, y) { a } else { 0 } }",
+        "class A { function f(): unit = { let a: int = 1; let (b, _): Pair<int, Str> = p; let { c, d as Some(e) }: Foo = r; let g: (int, bool) -> unit = (x, y) -> {}; let _ = g(a, true); } }",
+        "// leading line comment\n/* block */\nimport { A, /* inner */ B } from m.N // trailing\n/** doc for C */\nclass C(/* f1 */ val a: int, // after a\n val b: int /* end of fields */) {\n  // before member\n  /** doc */ function f(/* p */ x: int /* after x */, y: int /* last */): int = /* body */ x + /* mid */ y // eol\n  // end of class\n}\n// trailing comments\n/* last */",
+        "class A { function f(x: O): int = match /* scrutinee */ x { /* first */ A -> /* body */ 1, // after first\n B(v) -> /* c1 */ v.a /* c2 */ . b /* c3 */ (/* arg */ 1 /* end */) + /* c4 */ 2, /* before close */ } }",
+        "class A { function f(): int = { /* start */ let a = 1; // after let\n a; /* before final */ a /* end of block */ } function g(): unit = { /* only comment */ } function h(): Pair<int, int> = (1, /* c */ 2 /* end */) function k(): int = f(/* no args */) + g(a /* last */) }",
+        "class A { function f(): int /* before eq */ = a.b(c) + 1 function g(x: O): int = match x { A /* before arrow */ -> a.b.c(d), B -> -x /* c */ } function h(): unit = { let v /* before eq */ = b.c(1) + 2; let w /* c */ : int /* d */ = (a); } }",
+        "class A<T, R: Foo<int, T, (T) -> int>, S: Bar<R>> { function <U: Foo<T, U, (U, int) -> T>> f(u: U): U = u }",
+        "interface I { private method m(): int }", "class A { function f(): int = ( /* a */ x + 1 /* b */ ) * (/* c */ y) + (/* d */ (z)) }", "class A { function f(): int = { a", "class A { function f(): int = { let v = 1", "class A { function f(): int = { a;",
+        "interface I { /* empty with comment */ }\nclass A { /* empty class */ }\nclass B(/* no fields? */ val a: int) {}",
+        "class A { function f(a: Str): Str = a :: \"x\" :: (a :: \"y\") function g(): bool = !(1 < 2) && -(1) == -1 || true }",
+        "/* unterminated", "/**/ class A {}", "class A { function f(): int = 1 # 2 }", "class A { function f(): int = @ }", "private private class A {}",
+        "class A { private val }", "class 1 {}", "class a {}", "interface i {}", "import { a } from b", "import { A } from 1", "import A from b",
+        "class A { function F(): int = 1 }", "class A { function f(X: int): int = 1 }", "class A { function f(x: INT): int = 1 }", "class A(val A: int) {}",
+        "class A { function f(): int = 1", "class A { function f() int = 1 }", "class A { function f(): = 1 }", "class A { function <> f(): int = 1 }",
+        "class A { function f(): int = match x { A(1) -> 1 } }", "class A { function f(): int = match x { { } -> 1 } }", "class A { function f(): int = { let (a,) = p; a } }",
+    ]
+    return E, S, M
 
 
 SIZES = (1, 2, 15, 16, 17)
@@ -1070,6 +1120,9 @@ def size_boundary_leg(ctx, r, model_ok):
     E, P, M = size_family()
     lines = [f"E 100 {hexs(t)}" for _, t in E] + [f"E 30 {hexs(t)}" for _, t in E] + [f"P 100 {hexs(t)}" for t in P]
     r.expr_batch(lines, "boundary sizes", model=model_ok)
+    cE, cS, cM = coverage_family()
+    r.expr_batch([f"E {w} {hexs(t)}" for t in cE for w in (100, 20)] + [f"S 100 {hexs(t)}" for t in cS], "coverage family", model=model_ok)
+    r.module_batch([(f"coverage-family#{i}", w, t) for i, t in enumerate(cM) for w in (100, 30)], "coverage family")
     r.module_batch([(f"size-family#{i}", w, t) for i, t in enumerate(M) for w in (100, 40)], "boundary sizes")
     _, impl, _ = common.run_exec(common.harness_bin("C08"), [], [f"E 100 {hexs(t)}" for _, t in E])
     groups = {}
@@ -1083,6 +1136,47 @@ def size_boundary_leg(ctx, r, model_ok):
             r.violation(f"parser path dependence: a {kind} of {n} elements is accepted as `{acc[:60]}…` but rejected as `{rej[:60]}…` (acceptance must depend on the element count only)",
                         {"protocol": "fmt-expr", "accepted": acc, "rejected": rej, "kind": kind, "n": n,
                          "op": f"E 100 {hexs(acc)}"}, ("path", kind, n))
+    return st
+
+
+def list_family_leg(ctx, r, model_ok):
+    """every kind of bracketed list x n x comment kind x gap x width through format -> reparse -> tree
+    equality (vlib/listfamily.py), and the `trail` stream: per kind, does the real parser accept a
+    hand-written trailing comma / does the real printer ever emit one, against Model/FmtLists.lean."""
+    mods = list(listfamily.modules())
+    r.module_batch([("list:" + "/".join(str(x) for x in key), w, t) for key, t in mods for w in (20, 100)], "list family")
+    st = {"modules": len(mods), "kinds": len(listfamily.KINDS)}
+    kinds = [k for k in listfamily.KINDS if listfamily.KINDS[k][2]]
+    # real parser: accepts a trailing comma?
+    tl = [(k, n, listfamily.trailing(k, n)) for k in kinds for n in (1, 2, 3)]
+    _, acc, _ = common.run_exec(common.harness_bin("C08"), [], [f"D {hexs(t)}" for _, _, t in tl])
+    real_accepts = {}
+    for (k, n, _), a in zip(tl, acc):
+        real_accepts.setdefault(k, set()).add(not a.startswith("perr"))
+    # real printer: emits a trailing comma?
+    wl = [(key[0], t, w) for key, t in mods for w in (20, 100) if key[0] in listfamily.KINDS and listfamily.KINDS[key[0]][2]]
+    _, outs, _ = common.run_exec(common.harness_bin("C08"), [], [f"W {w} {hexs(t)}" for _, t, w in wl])
+    real_emits = {k: False for k in kinds}
+    strip = lambda x: re.sub(r"/\*.*?\*/|//[^\n]*", "", x, flags=re.S)
+    for (k, _, _), o in zip(wl, outs):
+        if o and o != "perr" and re.search(r",\s*" + re.escape(listfamily.KINDS[k][2]), strip(common.unhex(o).decode("utf-8", "replace"))):
+            real_emits[k] = True
+    if model_ok:
+        _, mod, _ = common.run_exec(common.driver_bin("C08"), [], [f"T {k}" for k in kinds])
+        for k, m in zip(kinds, mod):
+            ra = real_accepts.get(k, set())
+            if len(ra) != 1:
+                r.violation(f"parser accepts a trailing comma in a {k} list for some sizes only", {"kind": k, "source": listfamily.trailing(k, 2)}, ("trail-mixed", k))
+                continue
+            want = f"accepts={1 if True in ra else 0} emits={1 if real_emits[k] else 0}"
+            if m != want:
+                # the printer's normal form for this kind is no longer read by the parser: concrete input
+                src = next((t for key, t in mods if key[0] == k and key[2] == "block" and key[3] == ("close",)), listfamily.trailing(k, 2))
+                payload = {"protocol": "trail", "kind": k, "model": m, "implementation": want, "source": src, "width": 100,
+                           "broken": "Model/FmtLists.lean (trailing commas per list kind) vs the real parser/printer"}
+                r.violation(f"trail: list kind {k}: model {m}, implementation {want} (e.g. `{listfamily.trailing(k, 2)[:70]}`)", payload,
+                            ("trail", k), no_input=("accepts=1" in want and real_emits[k] == ("emits=1" in m)))
+    st["trail_kinds"] = len(kinds)
     return st
 
 
